@@ -85,6 +85,34 @@ func (s *netSim) chatterMessages() (kinds []string, raws [][]byte) {
 	if b, err := bc.GetBlock(hashes[len(hashes)-1]); err == nil {
 		add(network.CMDBlock, b)
 	}
+	// what a server does when it broadcasts one message to peers with and without compression support: the same
+	// Message object is serialised twice, compressed first and uncompressed second; the second packet is what a peer
+	// that does not support compression receives
+	var big [][]byte
+	for len(big) < 14 {
+		big = append(big, nodes...)
+	}
+	twice := func(cmd network.CommandType, p payload.Payload) {
+		m := network.NewMessage(cmd, p)
+		b1, err1 := m.BytesCompressed(true)
+		b2, err2 := m.BytesCompressed(false)
+		if err1 != nil || err2 != nil {
+			return
+		}
+		kinds = append(kinds, "p2p/"+cmd.String()+"/compressed", "p2p/"+cmd.String()+"/then-uncompressed")
+		raws = append(raws, b1, b2)
+	}
+	twice(network.CMDMPTData, &payload.MPTData{Nodes: big})
+	for i := h; i > 0 && i+8 > h; i-- {
+		if b, err := bc.GetBlock(bc.GetHeaderHash(i)); err == nil && len(b.Transactions) > 0 {
+			for _, tx := range b.Transactions {
+				if tx.Size() > 1100 {
+					twice(network.CMDTX, tx)
+					return
+				}
+			}
+		}
+	}
 	return
 }
 
